@@ -24,9 +24,6 @@ pub fn main(tier: Tier, seed: u64) -> i32 {
     let mut plan: Vec<(usize, usize, Mismatch)> = vec![];
     for n in [2usize, 3] {
         for leader in 0..n {
-            if n == 3 && leader != 1 && !tier.is_thorough() {
-                continue;
-            }
             for f in (0..n).filter(|f| *f != leader) {
                 plan.push((n, leader, Mismatch::Program { follower: f }));
                 if n == 3 {
